@@ -225,6 +225,15 @@ fn trigger_programs() -> Vec<(String, String)> {
     for (pos, src) in positions {
         v.push((format!("serde:{pos}"), src));
     }
+    // serde requested through derives only, at every place a derive can stand
+    let m = |decos: &str, kind: &str| format!("{decos}{kind} Item:\n    name: str\n\ndef main() -> None:\n    pass\n");
+    v.push(("serde:derive-model".into(), m("@derive(Serialize)\n", "model")));
+    v.push(("serde:derive-class".into(), m("@derive(Deserialize)\n", "class")));
+    v.push(("serde:derive-last-in-list".into(), m("@derive(Debug, Eq, Deserialize)\n", "model")));
+    v.push(("serde:derive-second-decorator".into(), m("@derive(Eq)\n@derive(Serialize)\n", "model")));
+    v.push(("serde:derive-third-decorator".into(), m("@derive(Eq)\n@derive(Hash)\n@derive(Serialize, Deserialize)\n", "class")));
+    v.push(("serde:derive-on-second-declaration".into(), format!("@derive(Eq)\nmodel First:\n    a: int\n\n{}", m("@derive(Serialize)\n", "model"))));
+    v.push(("serde:derive-on-class-after-model".into(), format!("model First:\n    a: int\n\n{}", m("@derive(Eq)\n@derive(Deserialize)\n", "class"))));
     v.push(("async:fn".into(), "async def w() -> int:\n    return 1\n\ndef main() -> None:\n    pass\n".into()));
     v.push(("async:class-method".into(), "class K:\n    v: int\n\n    async def w(self) -> int:\n        return 1\n\ndef main() -> None:\n    pass\n".into()));
     v.push(("async:model-method".into(), "model M:\n    v: int\n\n    async def w(self) -> int:\n        return 1\n\ndef main() -> None:\n    pass\n".into()));
